@@ -218,6 +218,15 @@ Theorem linterp_index_stays_in_table :
   forall (gt lt : nat -> bool) (idx n : nat), 2 <= n -> idx <= n - 2 -> get_index gt lt idx n + 1 < n.
 Proof. exact get_index_in_table. Qed.
 
+(* the LINTERP table reader never stores a row beyond its allocation: the chunk size and the growth step
+   (grow by GD_LUT_CHUNK as soon as the row count reaches the allocation) are regenerated from the source *)
+Theorem linterp_table_rows_stay_in_the_allocation :
+  lut_initial_is_chunk = true /\ lut_grows_when_full = true /\ lut_grows_by_chunk = true /\
+  forall n, let s := Nat.iter n (lut_step lut_chunk lut_grows_when_full) (0, lut_chunk) in fst s < snd s.
+Proof.
+  repeat split; try reflexivity. intros n. apply (lut_rows_in_bounds lut_chunk). vm_compute. apply Nat.leb_le. reflexivity.
+Qed.
+
 (* non-vacuity *)
 Example cycle_example :
   let d := [(1, [2]); (2, [3; 1]); (3, [])] in
